@@ -184,13 +184,7 @@ def tlc_batch(c, jobs, par=4):
     """jobs: [(key, cfg, workers, timeout, extra_args)] run concurrently, each in its own scratch dir"""
     def one(j):
         key, cfg, workers, timeout, args = j
-        files = None
-        if REPAIRED[0] and not cfg.startswith("MC_DposLib_fix"):
-            # design exploration only (VERIF_C08_DESIGN=repaired): the same configuration with the repairs switched on
-            src = os.path.join(c.work, "repaired_" + cfg)
-            open(src, "w").write(open(os.path.join(SPEC_DIR, cfg)).read().replace("Fixes <- NoFix", "Fixes <- AllFixes"))
-            files = {cfg: src}
-        return key, vlib.tlc(SPEC_DIR, "MC_DposLib", cfg, os.path.join(c.work, "tlc_" + key), workers=workers, timeout=timeout, args=args, files=files)
+        return key, vlib.tlc(SPEC_DIR, "MC_DposLib", cfg, os.path.join(c.work, "tlc_" + key), workers=workers, timeout=timeout, args=args)
     with concurrent.futures.ThreadPoolExecutor(max_workers=par) as ex:
         return dict(ex.map(one, jobs))
 
@@ -220,7 +214,7 @@ def graph_behaviours(res, cfg, tag, rng, max_paths=None, max_len=None):
 
 def sim_behaviours(c, res, cfg, tag, pre):
     if "Error:" in res.out:
-        raise vlib.Infra("simulation %s did not run clean:\n%s" % (cfg, res.out[-3000:]))
+        raise vlib.Infra("simulation %s found an error in the design (or did not run):\n%s" % (cfg, res.out[-3000:]))
     params = cfg_params(cfg)
     behs = []
     for fn in sorted(os.listdir(pre)):
@@ -231,18 +225,19 @@ def sim_behaviours(c, res, cfg, tag, pre):
     return behs
 
 
-# VERIF_C08_DESIGN=repaired (used by hand only, to try the proposed patches): behaviours are generated from the model with
-# Fixes = AllFixes and replayed on the tree given by VERIF_REPO (a worktree carrying the patches); the as-coded scenarios are skipped
-REPAIRED = [False]
-
-# configurations of the code AS IT IS that must fail in the design: (key, cfg, violated property, what)
-ASCODED = [
-    ("lazy", "MC_DposLib_lazy.cfg", "Final", "restart, then a longer branch from below the LIB is adopted (status attached lazily)"),
-    ("lazy2", "MC_DposLib_lazy2.cfg", "NoForkBelowLib", "restart, then a block numbered below the LIB is accepted"),
-    ("stale", "MC_DposLib_stale.cfg", "LibOnMain", "a proposal of the abandoned branch becomes the LIB"),
-    ("lower", "MC_DposLib_lower.cfg", "LibMonotone", "the LIB number decreases after a one-block reorganisation at the tip"),
+# OPEN finding F4 (the Confirms field of a header is not validated): configurations that must fail in the design;
+# TLC's counterexamples are replayed on the code, where they reproduce (known finding): (key, cfg, violated property, what)
+OPEN = [
     ("byzq", "MC_DposLib_byzq.cfg", "LibQuorum", "one Byzantine producer makes its own block irreversible (free Confirms)"),
     ("byza", "MC_DposLib_byza.cfg", "Agreement", "two nodes hold conflicting irreversible blocks, 1 of 4 producers Byzantine"),
+]
+# The model of the code BEFORE the repairs b495bde5 / a4f2be36 / c846cf0d (Fixes = {}): documented counterexamples, run in the
+# thorough tier for the record only (a self-test of the Fixes switches); they are not replayed and cannot change the verdict
+HISTORIC = [
+    ("lazy", "MC_DposLib_lazy.cfg", "Final", "restart, then a longer branch from below the LIB was adopted (status attached lazily)"),
+    ("lazy2", "MC_DposLib_lazy2.cfg", "NoForkBelowLib", "restart, then a block numbered below the LIB was accepted"),
+    ("stale", "MC_DposLib_stale.cfg", "LibOnMain", "a proposal of the abandoned branch became the LIB"),
+    ("lower", "MC_DposLib_lower.cfg", "LibMonotone", "the LIB number decreased after a one-block reorganisation at the tip"),
 ]
 
 
@@ -250,7 +245,6 @@ def run(c):
     T0[0] = time.time()
     rng = random.Random(c.seed)
     quick = c.tier == "quick"
-    REPAIRED[0] = os.environ.get("VERIF_C08_DESIGN") == "repaired"
     c.rule = ("a case is one step of one node of one replayed behaviour (state of the real DPoS status compared with the specification and the "
               "property evaluated on the real node) or one pairwise LIB comparison between two nodes; distinct = distinct (behaviour, node, step)")
     c.assumptions = ["blocks reach a node parents first", "all blocks valid and empty; BP set = genesis BP list",
@@ -259,33 +253,28 @@ def run(c):
     for d in simdir.values():
         os.makedirs(d, exist_ok=True)
     nsim, dsim = (40, 45) if quick else (700, 60)
-    GENS = [("gen3", "Gen_DposLib.cfg", "gen-T3"), ("gen4", "Gen_DposLib_T4.cfg", "gen-T4"),
+    # generation configurations also check all properties: one observer, one restart, every transition
+    GENS = [("gen3", "Gen_DposLib.cfg", "gen-T3"), ("gen4", "Gen_DposLib_T4.cfg", "gen-T4"), ("gen4s", "Gen_DposLib_T4s.cfg", "gen-T4s"),
             ("gen4e", "Gen_DposLib_T4e.cfg", "gen-T4e"), ("gen3w", "Gen_DposLib_T3w.cfg", "gen-T3w")]
     CLEAN = [
         ("mc", "MC_DposLib.cfg" if quick else "MC_DposLib_big.cfg", "full protocol, 3 correct producers (= nodes), every interleaving of production, delivery and one restart, %s: all properties" % ("3 blocks" if quick else "4 blocks")),
-        ("t3", "MC_DposLib_T3.cfg", "tree T3, two observers, every delivery order: all properties"),
-        ("t3r", "MC_DposLib_T3r.cfg", "tree T3, one observer, 2 restarts: LibOnMain, Agreement, LibMonotone, LibQuorum, RestoreEqualsRecompute"),
-        ("t4", "MC_DposLib_T4.cfg", "tree T4 (a producer cut off builds alone from genesis), no restart: the veto holds, all properties"),
-        ("t4e", "MC_DposLib_T4e.cfg", "tree T4e (fork exactly at the LIB block): all properties"),
-        ("t3w", "MC_DposLib_T3w.cfg", "tree T3w (chain longer than the rebuild window, fork at the tip), 1 restart: LibOnMain, Agreement, LibQuorum, RestoreEqualsRecompute"),
+        ("t3", "MC_DposLib_T3.cfg", "tree T3, TWO observers, every delivery order, 1 restart: all properties"),
     ]
-    if REPAIRED[0]:
-        CLEAN = []
-        c.notes.append("VERIF_C08_DESIGN=repaired: model with Fixes = AllFixes against the tree " + vlib.REPO)
-    if not quick or REPAIRED[0]:
-        CLEAN += [("fix4", "MC_DposLib_fix_T4.cfg", "REPAIRED design (attach+stale+mono), tree T4, 2 restarts: all properties"),
-                  ("fix4s", "MC_DposLib_fix_T4s.cfg", "REPAIRED design, tree T4s, 1 restart: all properties"),
-                  ("fix3w", "MC_DposLib_fix_T3w.cfg", "REPAIRED design, tree T3w, 1 restart: all properties"),
-                  ("fix3", "MC_DposLib_fix_T3.cfg", "REPAIRED design, tree T3, two observers, 1 restart: all properties")]
+    if not quick:
+        CLEAN += [("t4", "MC_DposLib_T4.cfg", "tree T4 (a producer cut off builds alone from genesis), 2 restarts: the veto holds at every point, all properties"),
+                  ("t4s", "MC_DposLib_T4s.cfg", "tree T4s (reorganisation away from a branch that carried a proposal), 2 restarts: all properties"),
+                  ("t4e", "MC_DposLib_T4e.cfg", "tree T4e (fork exactly at the LIB block), 2 restarts: all properties"),
+                  ("t3w", "MC_DposLib_T3w.cfg", "tree T3w (chain longer than the rebuild window, fork at the tip), 2 restarts: all properties")]
     jobs = [(k, cfg, 3 if k == "mc" else 1, 1700, None) for (k, cfg, _) in CLEAN]
     jobs += [(k, cfg, 1, 900, None) for (k, cfg, _) in GENS]
     jobs += [
         ("s3", "Sim_DposLib.cfg", 1, 900, ["-simulate", "file=%s/t,num=%d" % (simdir["s3"], nsim), "-depth", str(dsim), "-seed", str(c.seed * 7919 + 3)]),
         ("s4", "Sim_DposLib4.cfg", 1, 900, ["-simulate", "file=%s/t,num=%d" % (simdir["s4"], nsim), "-depth", str(dsim + 10), "-seed", str(c.seed * 7919 + 4)]),
-    ] + [(k, cfg, 1, 600, None) for (k, cfg, _, _) in (ASCODED if not REPAIRED[0] else [])]
+    ] + [(k, cfg, 1, 600, None) for (k, cfg, _, _) in OPEN]
     if not quick:
+        jobs += [(k, cfg, 1, 600, None) for (k, cfg, _, _) in HISTORIC]
         jobs.append(("genfull", "Gen_DposLib_full.cfg", 1, 1500, None))
-        jobs.append(("simfix", "Sim_DposLib_fix.cfg", 3, 1500, ["-simulate", "num=12000", "-depth", "70", "-seed", str(c.seed * 7919 + 5)]))
+        jobs.append(("simdeep", "Sim_DposLib4.cfg", 3, 1500, ["-simulate", "num=12000", "-depth", "70", "-seed", str(c.seed * 7919 + 5)]))
     with concurrent.futures.ThreadPoolExecutor(max_workers=2) as ex:
         fb = ex.submit(build_harness, c)
         ft = ex.submit(tlc_batch, c, jobs, 5)
@@ -296,25 +285,29 @@ def run(c):
         for (k, cfg, what) in CLEAN:
             c.require_ok(R[k], what)
         if not quick:
-            r = R["simfix"]
-            c.add_tlc(r, "REPAIRED design, simulation: 4 producers, 1 equivocating, 3 correct nodes, 2 restarts: all properties")
+            r = R["simdeep"]
+            c.add_tlc(r, "simulation, 12000 behaviours: 4 producers, 1 equivocating, 3 correct nodes, 2 restarts: all properties")
             if "Error:" in r.out:
-                raise vlib.Infra("simulation of the repaired design found an error:\n" + r.out[-3000:])
+                raise vlib.Infra("simulation (Sim_DposLib4.cfg, 12000 behaviours) found an error in the design:\n" + r.out[-3000:])
+            for (k, cfg, prop, what) in HISTORIC:
+                r = R[k]
+                c.add_tlc(r, "model of the code BEFORE the repairs, for the record: counterexample to %s (%s)" % (prop, what))
+                c.notes.append("pre-repair model %s: %s" % (cfg, "counterexample to %s found, as documented" % prop if r.violation == prop
+                                                            else "NOTE: expected a counterexample to %s, TLC says %s" % (prop, r.violation or "no error")))
         scen = []
-        for (k, cfg, prop, what) in (ASCODED if not REPAIRED[0] else []):
+        for (k, cfg, prop, what) in OPEN:
             r = R[k]
-            c.add_tlc(r, "code AS IT IS, expected counterexample to %s: %s" % (prop, what))
+            c.add_tlc(r, "OPEN finding F4 (Confirms not validated), expected counterexample to %s: %s" % (prop, what))
             if r.violation != prop or not r.error_trace:
-                raise vlib.Infra("the as-coded configuration %s was expected to violate %s, TLC says: %s\n%s" % (cfg, prop, r.violation, r.out[-2000:]))
-            scen.append(behaviour_from_error_trace(r, cfg, "ascoded-" + k))
-        c.notes.append("as-coded configurations: TLC counterexamples to %s replayed on the real code" % ", ".join("%s (%s)" % (p, k) for (k, _, p, _) in ASCODED))
+                raise vlib.Infra("the configuration %s was expected to violate %s, TLC says: %s\n%s" % (cfg, prop, r.violation, r.out[-2000:]))
+            scen.append(behaviour_from_error_trace(r, cfg, "open-" + k))
+        c.notes.append("open finding F4: TLC counterexamples to %s replayed on the real code" % ", ".join("%s (%s)" % (p, k) for (k, _, p, _) in OPEN))
         gen = []
         for (k, cfg, tag) in GENS:
-            c.require_ok(R[k], "transition enumeration " + cfg)
+            c.require_ok(R[k], "all properties + transition enumeration, one observer, one restart: " + cfg)
             gb, ntr, nst, tot = graph_behaviours(R[k], cfg, tag, rng)
             c.notes.append("%s: %d transitions, %d states, %d covering behaviours (all replayed)" % (cfg, ntr, nst, tot))
             gen += gb
-        g3, g4 = gen, []
         s3 = sim_behaviours(c, R["s3"], "Sim_DposLib.cfg", "sim3", simdir["s3"])
         s4 = sim_behaviours(c, R["s4"], "Sim_DposLib4.cfg", "sim4", simdir["s4"])
         gf = []
@@ -322,14 +315,14 @@ def run(c):
             c.require_ok(R["genfull"], "transition enumeration: full protocol, 3 nodes, 3 blocks, 1 restart")
             gf, ntrf, nstf, totf = graph_behaviours(R["genfull"], "Gen_DposLib_full.cfg", "gen-full", rng, max_paths=4000)
             c.notes.append("Gen_DposLib_full: %d transitions, %d states, %d covering behaviours, %d replayed" % (ntrf, nstf, totf, len(gf)))
-        _t("behaviours: %d scenario, %d+%d edge cover, %d+%d simulated, %d full-protocol edge cover" % (len(scen), len(g3), len(g4), len(s3), len(s4), len(gf)))
-        replay(c, exe, scen, "ascoded", nshards=max(1, len(scen)))
-        _t("as-coded scenarios replayed")
-        replay(c, exe, g3 + g4 + s3 + s4 + gf, "main", nshards=8)
+        _t("behaviours: %d open-finding scenarios, %d edge cover, %d+%d simulated, %d full-protocol edge cover" % (len(scen), len(gen), len(s3), len(s4), len(gf)))
+        replay(c, exe, scen, "open", nshards=max(1, len(scen)))
+        _t("open-finding scenarios replayed")
+        replay(c, exe, gen + s3 + s4 + gf, "main", nshards=8)
         _t("replayed")
         c.exhaustive = True
-        c.extra["exhaustive_note"] = ("exhaustive over the delivery orders and restart points of the scripted trees T3, T4, T4e, T3w (every transition of "
-                                      "their state graphs is replayed on a real node) and, in the model, over the full protocol with 3 producers and 3 (quick) / 4 "
+        c.extra["exhaustive_note"] = ("exhaustive over the delivery orders and restart points of the scripted trees T3, T4, T4s, T4e, T3w (every transition "
+                                      "of their state graphs is replayed on a real node) and, in the model, over the full protocol with 3 producers and 3 (quick) / 4 "
                                       "(thorough) blocks; deeper behaviours of the full protocol (simulation, 3-4 producers, <= 16 blocks) are sampled")
     finally:
         try:
